@@ -46,6 +46,12 @@ func (a *armoredWriter) Close() error {
 		return errors.New("ArmoredWriter already closed")
 	}
 	a.closed = true
+	if !a.started {
+		if _, err := io.WriteString(a.dst, Header+"\n"); err != nil {
+			return err
+		}
+		a.started = true
+	}
 	if err := a.encoder.Close(); err != nil {
 		return err
 	}
